@@ -987,7 +987,8 @@ def rule_inproc_one_push(ctx, cfg, F):
         if i == 0:
             # payload = to_vec(whole data parameter)
             calls = [r for r in rs if r.kind == "call"]
-            if not (calls and all(r.id in ("std::slice::to_vec", "core::slice::to_vec") for r in calls)):
+            if not (calls and all(r.id in ("std::slice::to_vec", "core::slice::to_vec", "std::convert::From::from", "std::borrow::ToOwned::to_owned", "std::vec::Vec::from") or r.id.endswith("::to_vec")
+                                  or r.id.endswith("::from") for r in calls)):
                 ok = False
             for r in calls:
                 a = f.term(r.block)["args"][0]
